@@ -17,7 +17,8 @@ def main(argv):
     from .props import c03
     run = obs.run_single(spec["text"], c03.realise(spec["opts"]), name=spec.get("name", "case.pdb"),
                          as_path=spec.get("as_path", False), profiles=True)
-    sys.stdout.write(json.dumps(canonical(run), sort_keys=True))
+    # (anything the package itself prints on standard output comes before the marker)
+    sys.stdout.write("\n@@C03REF@@" + json.dumps(canonical(run), sort_keys=True))
     return 0
 
 
